@@ -24,7 +24,7 @@ def canonicalRow (w : Wrapper) : Bool :=
 /-- every scaling entry point (other than the constructor, which only stores scale and 1/scale) is canonical -/
 theorem wrappers_canonical :
     ∀ w ∈ wrappers, scaling w = true → w.name ≠ "NewClipperD" → canonicalRow w = true := by
-  sorry
+  decide +kernel
 
 /-- the engine constructor validates, and the engine methods use the stored scale / inverse scale -/
 theorem engine_rows :
@@ -32,19 +32,19 @@ theorem engine_rows :
     (∃ w ∈ wrappers, w.name = "clipperD.AddPaths" ∧ w.inScales = ["c.scale"] ∧ w.outScales = []) ∧
     (∃ w ∈ wrappers, w.name = "clipperD.ExecuteOC" ∧ w.inScales = [] ∧ w.outScales = ["c.invScale", "c.invScale"]) ∧
     (∃ w ∈ wrappers, w.name = "clipperD.ExecutePolyTreeD" ∧ w.inScales = ["tree:c.scale"] ∧ w.outScales = ["c.invScale"]) := by
-  sorry
+  decide
 
 /-- the D entry points that reach a 64-bit operation all appear as scaling rows or delegate to one -/
 theorem entry_points_present :
     ∀ n ∈ ["InflatePathsD", "MinkowskiSumD", "MinkowskiDiffD", "RectClipPathsD", "RectClipLinesPathsD", "TrimCollinearD"],
       ∃ w ∈ wrappers, w.name = n ∧ scaling w = true := by
-  sorry
+  decide
 
 /-- the documented precision range -/
 theorem checkPrecision_iff (p : Int) : checkPrecision p = .ok () ↔ (-8 ≤ p ∧ p ≤ 8) := by
-  sorry
+  exact Proofs.C07.checkPrecision_iff p
 
 theorem checkPrecision_rejects (p : Int) (h : p < -8 ∨ 8 < p) : checkPrecision p = .error Fault.panic := by
-  sorry
+  exact Proofs.C07.checkPrecision_rejects p h
 
 end C07
